@@ -32,7 +32,10 @@ Record case := mkcase {
                                      YAML route, and of strconv.ParseFloat(token, bitsize) *)
   c_marshal : option (list (option string * field) * list val * mobs);
                                   (* mapping.Marshal of a struct value: members (part name, declaration), values, result *)
-  c_readers : list (obs * obs);   (* (bytes entry point, reader entry point) on the same content: UnmarshalJsonBytes vs
+  c_readers : list (obs * obs);   (* pairs of outcomes that must be the same.  (reference call in a process that never used
+                                     options, the same option-less call made after / before a conf.Load* or
+                                     WithCanonicalKeyFunc call); (mapping.UnmarshalJsonBytes, httpx.Parse of a request with
+                                     that JSON body, any method); and (bytes entry point, reader entry point) on the same content: UnmarshalJsonBytes vs
                                      UnmarshalJsonReader, UnmarshalYamlBytes vs UnmarshalYamlReader; also the empty and the
                                      blank document, an already drained reader, a one-byte-at-a-time reader *)
   c_direct : option (direct * obs) (* httpx.Parse called on a constructed request (GET query / POST form / header map) *)
